@@ -260,15 +260,20 @@ theorem iosafe_clean_sources_reach_no_sink :
 /-- no sink is a gate (needed to go through the gates) -/
 theorem sinks_not_gates : CallGraph.sinks &&& CallGraph.gates = 0 := by decide +kernel
 
-/-- **Through the gates — partial.**  IF the tree has no hole (`holeSrcs = []`, false today because of
-    `io.popen`, see `hole_paths_counterexample`), then in a context requiring iosafe — where an edge
-    out of a gate is only taken towards what the gate runs itself or towards iosafe-declared
-    functions — no iosafe-declared function reaches a sink by any feasible path, gates included.
-    Missing for the full statement: the hypothesis; it becomes `by decide` once io.popen is fixed. -/
-theorem iosafe_no_sink_through_gates_partial (hno : CallGraph.holeSrcs = []) :
+/-- the current tree has no hole: every iosafe-declared function (and everything the gates run
+    themselves) is a clean source.  A new hole makes this instance fail, and checks/c08.py reports
+    the offending path as a violation keyed by that path. -/
+theorem holes_empty : CallGraph.holeSrcs = [] := by decide
+
+/-- **Through the gates.**  In a context requiring iosafe — where an edge out of a gate is only taken
+    towards what the gate runs itself or towards iosafe-declared functions (`gates_guard`, and the
+    correspondence of checks/c08.py for `GoCont.RunInThread`) — no iosafe-declared function reaches
+    an operating-system sink by any feasible path, gates included. -/
+theorem iosafe_no_sink_through_gates :
     ∀ f s, f ∈ CallGraph.iosafeSrcs ++ CallGraph.gateSrcs → inSet CallGraph.sinks s →
       ¬ Reach (Feasible (inSet CallGraph.gates) (· ∈ CallGraph.iosafeSrcs ++ CallGraph.gateSrcs)
           (edgeRel CallGraph.graph)) f s := by
+  have hno := holes_empty
   have hcert := iosafe_no_sink
   simp only [checkCert, Bool.and_eq_true, List.all_eq_true, beq_iff_eq] at hcert
   obtain ⟨⟨hsrc, hedges⟩, hdisj⟩ := hcert
@@ -296,9 +301,10 @@ theorem iosafe_no_sink_through_gates_partial (hno : CallGraph.holeSrcs = []) :
     have := and_eq_zero_disjoint _ _ a sinks_not_gates hk
     rw [hg] at this; exact Bool.noConfusion this
 
-/-- **What is false of the current code.**  Every path listed by the extractor really is a call path
-    from an iosafe-declared function to a sink that avoids all gates (today: `io.popen`,
-    `io.close`, `file:close` → `os/exec.Cmd.Start/Wait/…`).  Vacuous once the list is empty. -/
+/-- Whenever the extractor lists an offending path (none on the current tree, see `holes_empty`; before
+    bcd51aa: `io.popen → os/exec.Cmd.Start`), that path really is a call path from an iosafe-declared
+    function to a sink that avoids all gates — so a reported hole is a fact about the graph, not about
+    the extractor's search. -/
 theorem hole_paths_counterexample :
     ∀ p ∈ CallGraph.holePaths, ∃ a b, a ∈ CallGraph.iosafeSrcs ++ CallGraph.gateSrcs ∧ inSet CallGraph.sinks b ∧
       ReachableAvoiding (inSet CallGraph.gates) (edgeRel CallGraph.graph) a b := by
